@@ -31,4 +31,10 @@ META = {
   "text": "Theorems: for every split of one DP aggregation (any number of DISTINCT groups and sums, thresholding or not, any eps>0, delta>0, share in [0,1]) the sum of the per-mechanism epsilons and deltas plus the key-release share is at most (eps, delta); the recorded multiplier nm(eps_j, delta_j) is never larger than the applied sigma/C = nm(eps_j/n, delta_j/n); composing events loses no non-no-op leaf. Tied to the code by compiling generated aggregation queries with the real compiler, reading every sigma, clipping constant and tau off the output IR and the flattened DpEvent, and re-computing the plan inside Coq on exact rationals.",
   "note": "Trusted: Coq kernel, Reals axioms (sig_forall_dec, sig_not_dec, functional_extensionality_dep, classic), the IR reader, Rust's f64 ln. That the classical Gaussian calibration is (eps,delta)-DP is cited (and needs eps<1: the code only warns).",
  },
+ "C12": {
+  "technique": "Coq proof on Flocq binary64 (monotone, exact below 2^53, round trip) + generic lifting lemmas + in-Coq bit-exact differential check of i64<->f64 conversions",
+  "design_ref": "DESIGN.md section 4, C12",
+  "text": "Theorems: Integer->Float (`i as f64`, Flocq binary_normalize) is monotone on the whole i64 range (so the interval image [value(min), value(max)] contains every converted point), exact and injective for |i| <= 2^53 and NOT injective beyond (refuted with witness: known finding); Float->Integer returns Some i only if i converts back to the same float, non-integral floats are refused; Boolean<->Integer round trip and refusal; the Optional/List/Struct liftings preserve injectivity and membership. Tied to the code bit-exactly on extreme and tie-breaking inputs and interval sets; the three laws of the statement are also evaluated directly on the implementation for random composite types.",
+  "note": "Trusted: Coq kernel, vm_compute, Flocq, Reals axioms + classic. Text/Date/Bytes conversions are not modelled (oracle only). Known finding C12-int-float-above-2p53 is reported by the oracle and mirrored by a _refuted theorem.",
+ },
 }
